@@ -546,11 +546,12 @@ impl Runner {
                 }
                 // canonical order: runs of immediate effects (made inside notifications, in notification order) are listed
                 // after the others, by node id
+                let selc: Vec<usize> = c.sh.lock().unwrap().selc.clone();
                 let mut ordered: Vec<RunRec> = log.iter().filter(|r| !imm.get(r.node).copied().unwrap_or(false)).cloned().collect();
                 let mut imms: Vec<RunRec> = log.iter().filter(|r| imm.get(r.node).copied().unwrap_or(false)).cloned().collect();
                 imms.sort_by_key(|r| r.node);
                 ordered.extend(imms);
-                let mut base = format!("{} woke={} ready={}", Self::effect_runs(&defs, &c.sh.lock().unwrap().selc.clone(), &ordered), ids(&woke), ids(&c.ready()));
+                let mut base = format!("{} woke={} ready={}", Self::effect_runs(&defs, &selc, &ordered), ids(&woke), ids(&c.ready()));
                 if oncl {
                     let mut counts: std::collections::BTreeMap<usize, usize> = Default::default();
                     for n in &cl_calls {
